@@ -88,9 +88,9 @@ def field_alias(v, s, k, trace=None):
     if not _same_child(seg, name, sp, seg.to_er7(), trace):
         return False
     # a field of base datatype has one component, named after the datatype: any letter case and the positional path reach it
-    dt = T.child_datatype(ch[k])
+    f = Field(name, version=v, validation_level=2)
+    dt = f.datatype       # (the stand-alone field's own datatype: a few withdrawn rows of segments.py point to a neighbour's FIELDS entry)
     if dt in T.LIBS[v].BASE_DATATYPES and dt not in ('WD',):
-        f = Field(name, version=v, validation_level=2)
         sp2 = cases(dt) + cases('%s_1' % name)
         if trace is not None:
             trace.append('%s Field %s (base datatype %s) component spellings %r' % (v, name, dt, sp2))
